@@ -8,7 +8,8 @@ RULE = ("range prover over the i64 lattice {i64::MIN, -2^62, -1, 0, 1, 127, 128,
         "honest constraints checked with right / wrong link, parameters and challenge; constraints assembled from bytes "
         "out of the published digit signatures with known discrete logs: arbitrary digit choices (all-maximal, swapped, "
         "random), a digit signature claimed for another digit, linked values outside the range, 8 / 10 proofs on the "
-        "wire; parameter sets under single-signature substitutions (another digit's signature, re-randomised, foreign "
+        "wire, errors in two digit proofs that cancel in an unweighted combination, a digit proof under an attacker's key, a later "
+        "position repeating an earlier position's blinded signature (with a foreign commitment / as a whole copy); parameter sets under single-signature substitutions (another digit's signature, re-randomised, foreign "
         "key, tampered). Non-trivial = every case other than the plain honest one; distinct = distinct input digest.")
 TRUSTED = ["theorems C13_* (digit arithmetic over Z by lia, relations over an arbitrary field); correspondence ops: rc_prove, "
            "rc_verify, rp_validate"]
@@ -30,7 +31,7 @@ def run(run, h):
     vals = LATTICE + [rng.randrange(-2 ** 63, 2 ** 63) for _ in range(4 if run.tier == "quick" else 60)]
     for v in vals:
         prover_case(run, h, pts, batch, rng, rp, rp2, v)
-    k = 12 if run.tier == "quick" else 120
+    k = 14 if run.tier == "quick" else 140
     for i in range(k):
         assembled_case(run, h, pts, batch, rng, rp, i)
     # a forged digit proof at EVERY digit position (the verifier must look at all nine)
@@ -38,6 +39,8 @@ def run(run, h):
         assembled_case(run, h, pts, batch, rng, rp, 3, pos=j)
         assembled_case(run, h, pts, batch, rng, rp, 7, pos=j)
         assembled_case(run, h, pts, batch, rng, rp, 8, pos=j)
+        if j > 0:
+            assembled_case(run, h, pts, batch, rng, rp, 12, pos=j)
     validate_cases(run, h, pts, batch, rng, rp, rp2)
     generated_params_case(run, h, rng)
     batch.flush()
@@ -126,7 +129,7 @@ def assembled_case(run, h, pts, batch, rng, rp, i, pos=None):
     c = ctx_chal(ctx)
     KINDS = ["all_max", "swapped", "random_digits", "foreign_digit_signature", "outside_range_link", "ten_proofs",
              "eight_proofs", "digit_128_claim", "proof_under_attacker_key", "cancelling_sigma2_pair", "cancelling_claims",
-             "cancelling_scalar_commitments"]
+             "cancelling_scalar_commitments", "repeated_blinded_signature", "repeated_digit_proof"]
     kind = KINDS[i % len(KINDS)]
     ds = [rng.randrange(128) for _ in range(9)]
     if kind == "all_max":
@@ -154,6 +157,22 @@ def assembled_case(run, h, pts, batch, rng, rp, i, pos=None):
         s1, s2 = a, a * (ax + ay * D) % Q
         dps[attacker_pos] = dict(cp, s1=s1 * r % Q, s2=(s2 + s1 * bf) * r % Q, k=k)
         claim[attacker_pos] = D
+    if kind in ("repeated_blinded_signature", "repeated_digit_proof"):
+        # a later digit position shows the SAME blinded signature as an earlier one: with the same commitment proof it is the
+        # same (genuine) digit twice; with a commitment to another scalar D the pairing equation of that position fails - each
+        # position's pairing check is about its own commitment, whatever was checked before
+        a, b = sorted(rng.sample(range(9), 2))
+        if pos is not None and pos > 0:
+            a, b = rng.randrange(pos), pos
+        if kind == "repeated_digit_proof":
+            dps[b] = dict(dps[a])
+            claim[b], sigidx[b] = claim[a], sigidx[a]
+        else:
+            D = rng.choice([128, 255, rand_nz(rng)])
+            bf, kbf, k = rand_nz(rng), rand_nz(rng), rand_nz(rng)
+            cp = craft_cp(rp["pk"]["g2"], rp["pk"]["y2s"], [D], bf, kbf, [k], c)
+            dps[b] = dict(cp, s1=dps[a]["s1"], s2=dps[a]["s2"], k=k)
+            claim[b] = D
     cancelling = kind.startswith("cancelling")
     if cancelling:
         # errors in TWO digit proofs that cancel when the nine relations are multiplied / added together without random
